@@ -13,3 +13,4 @@ import NbioVerif.Properties.C04
 #print axioms ConnFull.c04_et_report_flushes
 #print axioms ConnFull.c04_et_edge_counterexample_early
 #print axioms ConnFull.c04_drains
+#print axioms ConnFull.c04_tail_is_three_steps
